@@ -46,7 +46,7 @@ func runC01(r *Run) {
 		r.c01Maintenance(i)
 	}
 	// more announces under hostile replies, crossing the announce's own options (variant = 5k+1 selects the announce)
-	for k := 0; k < r.n(30, 300) && !r.c14Full(); k++ {
+	for k := 0; k < r.n(72, 360) && !r.c14Full(); k++ {
 		sc := r.newSrvScen(srvOpts{noSecurity: true, peerStore: k%2 == 0, mute: true})
 		sc.hostileReplies(5*k + 1)
 		sc.probe()
